@@ -61,6 +61,21 @@ def _gen_pool(tape, ctx):
                 pool.append(["and", a, richgen.gen(tape, bp.BOOL, 2, ctx), b])
             else:
                 pool.append([k, a, b])
+    if tape.chance(1, 3, "pool.stores") and "A" in ctx.symbols:
+        # two formulas that share an intermediate store over one constant array value and then branch
+        arr_sort = ctx.symbols["A"]
+        if bp.is_array(arr_sort) and arr_sort[1] == bp.INT and arr_sort[2] == bp.INT:
+            def iv():
+                return richgen.gen(tape, bp.INT, 1, ctx)
+            a0 = ["arrayval", bp.INT, ["int", tape.rint(0, 2, "stores.default")], []]
+            base = ["store", a0, ["int", 1], iv()]
+            if tape.chance(1, 2, "stores.deeper"):
+                base = ["store", base, ["int", 2], iv()]
+            f1 = ["store", base, ["int", tape.rint(3, 4, "stores.k1")], iv()]
+            f2 = ["store", base, ["int", tape.rint(5, 6, "stores.k2")], iv()]
+            A = ["sym", "A", arr_sort]
+            for f_ in (f1, f2):
+                pool[tape.draw(len(pool), "stores.where")] = ["=", f_, A]
     if tape.chance(1, 3, "pool.xnode"):
         j = tape.draw(len(pool), "pool.xnode.which")
         pool[j] = ["and", ["xnode", pool[j], ["sym", "q", bp.BOOL]], ["sym", "p", bp.BOOL]]
